@@ -5,6 +5,8 @@ from . import parts
 
 def keep(part, x):
     if part == 'ir_alloc':
+        if x.rule == 'R04.5':
+            return True
         ok = (x.ok and x.sample and x.sample.get('exit') in ('unwind',)) or (not x.ok and x.key.get('exit') == 'unwind')
         if ok:
             x.rule = 'R06.1'
